@@ -176,6 +176,19 @@ func (ve *verifEnv) runHistory(seed int64, p verifgen.Params, hist []verifgen.En
 		}
 		ve.rep.Case(e.Cmd + "|" + e.Role + "|" + first + "|" + multi + "|" + changed)
 		ve.rep.Obs("cmd."+cmdBucket(e.Cmd)+"."+e.Role, 1)
+		// snapshot round trip at seeded points: the history continues on an instance
+		// that was serialized and loaded (what every restarted or lagging node runs on)
+		if (uint64(seed)+uint64(idx)*2654435761)%41 == 0 {
+			data, err := srv.Marshal(e.Id)
+			if err == nil {
+				cp := verifNewServer()
+				if _, err := cp.Unmarshal(data); err == nil {
+					srv = cp
+					mons.Resync(srv.VerifView())
+					ve.rep.Obs("snapshot-round-trips", 1)
+				}
+			}
+		}
 	}
 	for k, v := range mons.Stats {
 		ve.rep.Obs(k, v)
